@@ -102,6 +102,8 @@ def make_replayer():
             want = ['iaddsub-value']
         if ob.kind.startswith('sum-'):
             want = ['sum-value']
+        if ob.kind.startswith('minmax-') or ob.kind.startswith('max-'):
+            want = ['minmax-accepts']
         if ob.kind.startswith('binop-'):
             want = ['binop-value', 'binop-fresh']
         if ob.kind.startswith('key-'):
@@ -147,6 +149,27 @@ def run(report, tier, seed):
         report.add(Ob('lin_spec:slice-lemma:' + name, 'slice-lemma', status,
                       text, 'contracts/py/lin_spec.py', by=['z3'] if
                       status == 'proved' else [], detail=detail))
+    from contracts.py import function_index_spec
+    try:
+        mobs = function_index_spec.minmax_init_obligations(
+            10000 if tier == 'quick' else 60000)
+        if 'modeling.py:_minmax.__init__' not in report.functions:
+            report.functions.append('modeling.py:_minmax.__init__')
+    except KeyError as e:
+        report.error('function under contract no longer exists: %s' % e)
+        mobs = []
+    try:
+        mobs += function_index_spec.maxmin_obligations(
+            10000 if tier == 'quick' else 60000)
+        for f_ in ('modeling.py:max', 'modeling.py:min'):
+            if f_ not in report.functions:
+                report.functions.append(f_)
+    except KeyError as e:
+        report.error('function under contract no longer exists: %s' % e)
+    for o in mobs:
+        report.add(Ob(o['id'], o['kind'], o['status'], o['text'],
+                      'modeling.py line %s' % o['line'], by=o['by'],
+                      detail=o.get('detail'), meta={'line': o['line']}))
     from contracts.py import keytolist_spec
     for name, text, hyp, goal in keytolist_spec.filter_lemma():
         t0 = time.time()
